@@ -278,6 +278,24 @@ func checkC16(p *Program, r *Report) {
 		}
 	}
 	r.Check(emb, "array.Base embeds Array32", p.Pos(base.Obj().Pos()), "embedded by value", "Base no longer embeds Array32")
+	// Base itself carries nothing but the wire message and the element encoder (configuration): proto.Unmarshal
+	// fills the embedded message and knows no other field, so any further field is zero in a literal that is
+	// loaded and stale in an object that is re-loaded
+	{
+		var extra []string
+		for i := 0; i < bst.NumFields(); i++ {
+			f := bst.Field(i)
+			if f.Embedded() && types.Identical(f.Type(), a32) {
+				continue
+			}
+			if isNamed(f.Type(), encPath, "Encoder") {
+				continue
+			}
+			extra = append(extra, f.Name()+" "+f.Type().String())
+		}
+		r.Check(len(extra) == 0, "array.Base holds only the wire message and the element encoder", p.Pos(base.Obj().Pos()), "no derived state next to the message",
+			"field(s) "+strings.Join(extra, ", ")+" are not part of the serialised message: a loaded array (proto.Unmarshal into a literal or into a used object) has them zero or stale, and accessors that rely on them disagree with the ones that do not")
+	}
 	for _, n := range typedArrays(p) {
 		st := n.Underlying().(*types.Struct)
 		extra := []string{}
